@@ -197,7 +197,7 @@ class DocEngine:
                 # an I/O error in the middle of a lazy load
                 op["fault"] = {"site": rng.choice(["zip_read", "read_bytes", "zip_open_r"], "rfsite"), "k": 1, "errno": rng.choice(["EIO", "EACCES"], "rferr")}
         elif name == "edit":
-            op["kind"] = rng.choice(["para", "heading", "list", "table", "image", "meta_title", "meta_user", "meta_keyword", "style", "delete_last"] + (["numlist", "numlist", "foreign_named_range", "xml_prolog", "meta_sparse"] if self.prop == "C15" else []) + (["meta_generator"] if self.prop == "C03" else []), "ekind")
+            op["kind"] = rng.choice(["para", "heading", "list", "table", "image", "meta_title", "meta_user", "meta_keyword", "style", "delete_last"] + (["numlist", "numlist", "foreign_named_range", "xml_prolog", "meta_sparse", "toc_unfilled", "tracked_xmlid"] if self.prop == "C15" else []) + (["meta_generator"] if self.prop == "C03" else []), "ekind")
             op["n"] = n
             if self.prop == "C15" and self._doc_type() == "spreadsheet" and rng.chance(0.25, "fnr?"):
                 op["kind"] = "foreign_named_range"
@@ -777,6 +777,8 @@ class DocEngine:
                 return [Violation("C10", "twin-unreadable", "clone_container", feats + ["at_birth"], type(e).__name__, f"{n}: {e}")]
             if x != y:
                 return [Violation("C10", "clone-differs-at-birth", "clone_container", feats, None, f"{n} differs in the container clone")]
+        # (get_parts() is not compared: for a container opened from a zip path it lists the archive on disk, not the parts in
+        # memory, on the unchanged tree - a clone, which has no path, lists differently as soon as a part was added or deleted)
         # independence both ways
         res.set_part("Extra/only-in-clone.bin", b"x")
         if names:
@@ -884,6 +886,35 @@ class DocEngine:
                 doc.set_part("content.xml", data)
                 st.set_part("content.xml", data)
                 return None
+            if kind == "toc_unfilled":
+                # a table of contents that was never filled (its index body has no entry yet)
+                if dtype != "text":
+                    return "content.xml"
+                from odfdo import TOC as _TOC
+                doc.body.append(_TOC(title=f"Contents {n}"))
+                return "content.xml"
+            if kind == "tracked_xmlid":
+                # tracked changes as ODF 1.2 writes them: the changed region identified by xml:id alone (text:id is
+                # deprecated); put in at the XML level
+                if dtype != "text":
+                    return "content.xml"
+                root = etree.fromstring(doc.content.serialize())
+                text = root.find(".//" + xmlref.q("office:text"))
+                if text is None or text.find(xmlref.q("text:tracked-changes")) is not None:
+                    return "content.xml"
+                tc = etree.fromstring(
+                    '<text:tracked-changes xmlns:text="urn:oasis:names:tc:opendocument:xmlns:text:1.0" xmlns:office="urn:oasis:names:tc:opendocument:xmlns:office:1.0" '
+                    'xmlns:dc="http://purl.org/dc/elements/1.1/"><text:changed-region xml:id="ct%d"><text:insertion><office:change-info><dc:creator>sim</dc:creator>'
+                    '<dc:date>2024-01-01T00:00:00</dc:date></office:change-info></text:insertion></text:changed-region></text:tracked-changes>' % n)
+                text.insert(0, tc)
+                p_ = etree.SubElement(text, xmlref.q("text:p"))
+                p_.text = "kept "
+                cs = etree.SubElement(p_, xmlref.q("text:change-start")); cs.set(xmlref.q("text:change-id"), "ct%d" % n); cs.tail = "inserted words"
+                ce = etree.SubElement(p_, xmlref.q("text:change-end")); ce.set(xmlref.q("text:change-id"), "ct%d" % n); ce.tail = " kept too"
+                data = etree.tostring(root, xml_declaration=True, encoding="UTF-8")
+                doc.set_part("content.xml", data)
+                st.set_part("content.xml", data)
+                return None
             if kind == "meta_sparse":
                 # a meta.xml with fewer of the optional elements (no meta:document-statistic, no generator), as small
                 # producers write it; put in at the XML level
@@ -960,6 +991,8 @@ class DocEngine:
             if kind == "subobject":
                 part = doc.get_part(op["name"])
                 part.root.set_attribute("office:version", "1.%d" % (2 + n % 2))
+                # (remembered by the harness itself: the expectation must not depend on the document handing out the same part object again)
+                self.sub_edits = dict(getattr(self, "sub_edits", {}), **{op["name"]: "1.%d" % (2 + n % 2)})
                 part.root.append(__import__("odfdo").Element.from_tag("<office:scripts/>")) if n % 3 == 0 else None
                 return op["name"]
             if kind == "meta_title":
@@ -1460,6 +1493,7 @@ class DocEngine:
         st.set_part(name, data)
         if name == "meta.xml":
             self.user_generator = None  # (the part now is what these bytes say, a generator "read from a file")
+        getattr(self, "sub_edits", {}).pop(name, None)
         self.n_edits += 1
         return []
 
@@ -1550,6 +1584,13 @@ class DocEngine:
     def _c13_note(self):
         for e in self.c13_inserted:
             self.c13_latest[e["key"]] = e
+            if e["family"] == "font-face":
+                # the two parts declare their fonts separately: the document-level lookup answers with the declaration
+                # of content.xml when both have the name; an older declaration of the OTHER part is then no longer
+                # what a lookup returns (it is still checked for presence)
+                for k2, e2 in self.c13_latest.items():
+                    if e2 is not e and e2["family"] == "font-face" and e2["name"] == e["name"] and k2 != e["key"] and e["key"][0] == "content":
+                        e2["lookup_superseded"] = True
         self.c13_inserted = []
 
     def _op_ins_style(self, op):
@@ -1593,6 +1634,9 @@ class DocEngine:
 
         kind, name = op["source"].split(":", 1)
         self.other = Document(name) if kind == "template" else Document(os.path.join(ds.SAMPLES, name))
+        d_ = dict(getattr(self, "ff_content_names", {}))
+        d_["other"] = set()
+        self.ff_content_names = d_
         self.flags.discard("other_has_unsaved_styles")
         self._outcome = "open_other"
         return []
@@ -1602,6 +1646,9 @@ class DocEngine:
             return []
         doc, st = self.sut.doc, self.sut.store
         vs = doc_styles.run_merge(self, op, doc, self.other, self._feats())
+        d_ = dict(getattr(self, "ff_content_names", {}))
+        d_["main"] = set(d_.get("main", set())) | set(d_.get("other", set()))  # (the merge brings the other document's declarations in)
+        self.ff_content_names = d_
         if "other_has_styles_xml_automatic_style" in self.flags:
             self.flags.add("merged_styles_xml_automatic")
         st.touched |= {"content.xml", "styles.xml", ds.MANIFEST}
@@ -1708,6 +1755,8 @@ class DocEngine:
         for k, e in sorted(self.c13_latest.items(), key=repr):
             if pop.get(k) != [e["c14n"]]:
                 return [Violation("C13", "style-lost-or-duplicated", "relookup", feats + ["family:" + e["family"]], None, f"{k}: {len(pop.get(k, []))} definitions, the inserted one {'present' if e['c14n'] in pop.get(k, []) else 'absent'}")]
+            if e.get("lookup_superseded"):
+                continue
             v = doc_styles.check_lookup(doc, e["family"], e["name"], e["default"], e["c14n"], feats + ["family:" + e["family"]], "relookup")
             if v:
                 return [v]
@@ -1830,6 +1879,7 @@ class DocEngine:
             return []
         self.stats.probe("continued_on_clone")
         self.user_generator = None  # (what a clone does with the generator is not judged)
+        self.sub_edits = {}
         new = ds.PartStore()
         new.mimetype = st.mimetype
         for n in st.names():
@@ -2123,6 +2173,13 @@ class DocEngine:
                 g = etree.fromstring(pkg.parts["meta.xml"]).find(".//" + xmlref.q("meta:generator"))
                 if g is None or (g.text or "") != ug:
                     problems = [("edit-not-in-part", f"meta.xml: the generator set through the API ({ug!r}) is {(g.text if g is not None else None)!r} in the saved file")]
+            if not problems:
+                for sn, ver in sorted(getattr(self, "sub_edits", {}).items()):
+                    if sn in pkg.parts and sn in exp:
+                        got_ver = etree.fromstring(pkg.parts[sn]).get(xmlref.q("office:version"))
+                        if got_ver != ver:
+                            problems = [("edit-not-in-part", f"{sn}: office:version set to {ver!r} through Document.get_part(...).root is {got_ver!r} in the saved file")]
+                            break
             for kind, det in problems:
                 f2 = feats + ["part:" + det.split(":")[0]] if kind == "part-differs" else (feats + ["empty_dir_entry"] if det.endswith("/") else feats)
                 vs.append(Violation("C03", kind, "save", f2, None, det))
@@ -2185,6 +2242,7 @@ class DocEngine:
             raise HarnessError(f"cannot reopen artefact: {exc}")
         self.n_reopen += 1
         self.user_generator = None  # (a generator read from a file is replaced at the next save: documented)
+        self.sub_edits = {}
         # facts about the other document stay true; facts saved with the artefact come back with it
         self.flags = (self.flags & {"other_has_styles_xml_automatic_style", "other_has_unsaved_styles"}) | set(art.get("hist_flags", []))
         self._after_open(op)
